@@ -1,6 +1,171 @@
-import CmModel.Lab
-/-! # C11 — placeholder until the real-number theorems are merged -/
+import CmProofs.ColorReal
+/-!
+# C11 — CIE L*a*b* and CIEDE2000 at the real-number carrier
+
+All statements are about the *model* (`Cm.deltaE2000Lab`, `Cm.deltaE2000`, `Cm.xyzToLab`,
+`Cm.rgbToLab`) instantiated at `Cm.realNum`. The sub-terms named in `dE_safe_*` / `dE_radicand_*`
+(`Cm.SLR`, `Cm.SCR`, `Cm.SHR`, `Cm.RTR`, `Cm.CmP`, `Cm.radicand`, …, in `CmProofs/ColorReal.lean`)
+are tied to the model by `dE_eq_sqrt_radicand`.
+-/
 namespace CmProps.C11
-open Cm
-theorem validRgb_def (c : RGB) : validRgb c = ((0 ≤ c.1 && c.1 ≤ 255) && (0 ≤ c.2.1 && c.2.1 ≤ 255) && (0 ≤ c.2.2 && c.2.2 ≤ 255)) := rfl
+open Cm Real
+
+/-- CIEDE2000 on Lab triples, model at ℝ -/
+noncomputable abbrev dE (p q : ℝ × ℝ × ℝ) : ℝ := @Cm.deltaE2000Lab ℝ Cm.realNum p q
+/-- CIEDE2000 on RGB triples, model at ℝ -/
+noncomputable abbrev dErgb (c1 c2 : RGB) : ℝ := @Cm.deltaE2000 ℝ Cm.realNum c1 c2
+
+/-- the tie between the model and the named sub-terms: `radicand` unfolds (by definition) to
+`(ΔL'/S_L)² + (ΔC'/S_C)² + (ΔH'/S_H)² + R_T (ΔC'/S_C)(ΔH'/S_H)` with
+`S_L = SLR (LmP p q)`, `S_C = SCR (CmP p q)`, `S_H = SHR (CmP p q) (HmP p q)`,
+`R_T = RTR (CmP p q) (HmP p q)` -/
+theorem dE_eq_sqrt_radicand (p q : ℝ × ℝ × ℝ) : dE p q = √(radicand p q) :=
+  deltaE2000Lab_real p q
+
+theorem radicand_unfold (p q : ℝ × ℝ × ℝ) :
+    radicand p q =
+      (dLP p q / SLR (LmP p q)) ^ 2 + (dCP p q / SCR (CmP p q)) ^ 2
+        + (dHP p q / SHR (CmP p q) (HmP p q)) ^ 2
+        + RTR (CmP p q) (HmP p q) * (dCP p q / SCR (CmP p q)) * (dHP p q / SHR (CmP p q) (HmP p q)) :=
+  rfl
+
+/-! ## 1. symmetry -/
+
+/-- the hue-difference branch is antisymmetric under swapping both pairs of arguments -/
+theorem dhPrime_anti (C1 C2 h1 h2 : ℝ) :
+    @dhPrime ℝ realNum C2 C1 h2 h1 = -(@dhPrime ℝ realNum C1 C2 h1 h2) := by
+  rw [dhPrime_real, dhPrime_real, dhpR_anti]
+
+/-- the hue-mean branch is symmetric -/
+theorem hMeanPrime_symm (C1 C2 h1 h2 : ℝ) :
+    @hMeanPrime ℝ realNum C2 C1 h2 h1 = @hMeanPrime ℝ realNum C1 C2 h1 h2 := by
+  rw [hMeanPrime_real, hMeanPrime_real, hmR_symm]
+
+theorem dE_symm (p q : ℝ × ℝ × ℝ) : dE p q = dE q p := by
+  rw [dE_eq_sqrt_radicand, dE_eq_sqrt_radicand, radicand_comm]
+
+/-! ## 2. non-negativity -/
+
+theorem dE_nonneg (p q : ℝ × ℝ × ℝ) : 0 ≤ dE p q := by
+  rw [dE_eq_sqrt_radicand]; exact Real.sqrt_nonneg _
+
+/-! ## 3. the square root is meaningful -/
+
+/-- algebraic core -/
+theorem quad_form_nonneg (x y r : ℝ) (hr : |r| ≤ 2) : 0 ≤ x ^ 2 + y ^ 2 + r * x * y :=
+  quad_nonneg x y r hr
+
+/-- `0 ≤ R_C ≤ 2` -/
+theorem RC_range (p q : ℝ × ℝ × ℝ) : 0 ≤ RCR (CmP p q) ∧ RCR (CmP p q) ≤ 2 :=
+  ⟨RCR_nonneg _, RCR_le_two (CmP_nonneg p q)⟩
+
+/-- `|R_T| ≤ 2` -/
+theorem abs_RT_le_two (p q : ℝ × ℝ × ℝ) : |RTR (CmP p q) (HmP p q)| ≤ 2 :=
+  abs_RTR_le_two (CmP_nonneg p q) _
+
+/-- the expression under the final square root is non-negative -/
+theorem dE_radicand_nonneg (p q : ℝ × ℝ × ℝ) : 0 ≤ radicand p q := radicand_nonneg p q
+
+/-- hence the result squared *is* the radicand (no truncation by `√` of a negative number) -/
+theorem dE_sq (p q : ℝ × ℝ × ℝ) : dE p q ^ 2 = radicand p q := by
+  rw [dE_eq_sqrt_radicand, Real.sq_sqrt (radicand_nonneg p q)]
+
+/-! ## 4. RGB level -/
+
+theorem dE_lab_self (p : ℝ × ℝ × ℝ) : dE p p = 0 := by
+  rw [dE_eq_sqrt_radicand, radicand_self, Real.sqrt_zero]
+
+theorem dE_rgb_self (c : RGB) : dErgb c c = 0 := by
+  show @Cm.deltaE2000 ℝ Cm.realNum c c = 0
+  unfold deltaE2000
+  rw [if_pos rfl, real_sci]
+  norm_num
+
+theorem dE_rgb_symm (c1 c2 : RGB) : dErgb c1 c2 = dErgb c2 c1 := by
+  show @Cm.deltaE2000 ℝ Cm.realNum c1 c2 = @Cm.deltaE2000 ℝ Cm.realNum c2 c1
+  unfold deltaE2000
+  by_cases h : c1 = c2
+  · rw [if_pos h, if_pos h.symm]
+  · rw [if_neg h, if_neg (fun h' => h h'.symm)]
+    exact dE_symm _ _
+
+theorem dE_rgb_nonneg (c1 c2 : RGB) : 0 ≤ dErgb c1 c2 := by
+  show 0 ≤ @Cm.deltaE2000 ℝ Cm.realNum c1 c2
+  unfold deltaE2000
+  by_cases h : c1 = c2
+  · rw [if_pos h, real_sci]; norm_num
+  · rw [if_neg h]; exact dE_nonneg _ _
+
+/-- the early return of `calculate_delta_e_2000` agrees with the formula: the formula itself
+gives 0 on identical colours -/
+theorem dE_rgb_eq_lab (c1 c2 : RGB) :
+    dErgb c1 c2 = dE (@rgbToLab ℝ realNum c1) (@rgbToLab ℝ realNum c2) := by
+  show @Cm.deltaE2000 ℝ Cm.realNum c1 c2 = _
+  unfold deltaE2000
+  by_cases h : c1 = c2
+  · subst h; rw [if_pos rfl, dE_lab_self, real_sci]; norm_num
+  · rw [if_neg h]
+
+/-! ## 5. every divisor is safe -/
+
+/-- `C̄ ≥ 0`, `C̄' ≥ 0` (means of square roots) -/
+theorem dE_safe_Cbar_nonneg (p q : ℝ × ℝ × ℝ) :
+    0 ≤ (chroma p.2.1 p.2.2 + chroma q.2.1 q.2.2) / 2 ∧ 0 ≤ CmP p q := by
+  refine ⟨?_, CmP_nonneg p q⟩
+  have := chroma_nonneg p.2.1 p.2.2
+  have := chroma_nonneg q.2.1 q.2.2
+  linarith
+
+/-- divisor of `G`: `C̄^7 + 25^7 > 0` -/
+theorem dE_safe_G_den (p q : ℝ × ℝ × ℝ) :
+    0 < ((chroma p.2.1 p.2.2 + chroma q.2.1 q.2.2) / 2) ^ 7 + 25 ^ 7 :=
+  pow7_add_pos (dE_safe_Cbar_nonneg p q).1
+
+/-- divisor of `R_C`: `C̄'^7 + 25^7 > 0` -/
+theorem dE_safe_RC_den (p q : ℝ × ℝ × ℝ) : 0 < CmP p q ^ 7 + 25 ^ 7 :=
+  pow7_add_pos (CmP_nonneg p q)
+
+/-- divisor inside `S_L`: `20 + (L̄ − 50)² > 0` (and so is its square root) -/
+theorem dE_safe_SL_den (p q : ℝ × ℝ × ℝ) :
+    0 < 20 + (LmP p q - 50) ^ 2 ∧ 0 < √(20 + (LmP p q - 50) ^ 2) :=
+  ⟨SL_den_pos _, Real.sqrt_pos.2 (SL_den_pos _)⟩
+
+theorem dE_safe_SL (p q : ℝ × ℝ × ℝ) : 1 ≤ SLR (LmP p q) := SLR_ge_one _
+theorem dE_safe_SC (p q : ℝ × ℝ × ℝ) : 1 ≤ SCR (CmP p q) := SCR_ge_one (CmP_nonneg p q)
+/-- `T ∈ [0.07, 1.93]`, in particular `T > 0` -/
+theorem dE_safe_T (p q : ℝ × ℝ × ℝ) : 0.07 ≤ TR (HmP p q) ∧ TR (HmP p q) ≤ 1.93 :=
+  ⟨TR_lower _, TR_upper _⟩
+theorem dE_safe_SH (p q : ℝ × ℝ × ℝ) : 1 ≤ SHR (CmP p q) (HmP p q) :=
+  SHR_ge_one (CmP_nonneg p q) _
+
+/-- all divisors of the formula at once -/
+theorem dE_safe (p q : ℝ × ℝ × ℝ) :
+    0 < ((chroma p.2.1 p.2.2 + chroma q.2.1 q.2.2) / 2) ^ 7 + 25 ^ 7 ∧
+    0 < CmP p q ^ 7 + 25 ^ 7 ∧
+    0 < √(20 + (LmP p q - 50) ^ 2) ∧
+    1 ≤ SLR (LmP p q) ∧ 1 ≤ SCR (CmP p q) ∧ 1 ≤ SHR (CmP p q) (HmP p q) :=
+  ⟨dE_safe_G_den p q, dE_safe_RC_den p q, (dE_safe_SL_den p q).2, dE_safe_SL p q, dE_safe_SC p q,
+    dE_safe_SH p q⟩
+
+/-! ## 6. `L*` is clamped to `[0, 100]` -/
+
+theorem lab_L_range (xyz : ℝ × ℝ × ℝ) :
+    0 ≤ (@xyzToLab ℝ realNum xyz).1 ∧ (@xyzToLab ℝ realNum xyz).1 ≤ 100 := by
+  obtain ⟨x, y, z⟩ := xyz
+  unfold xyzToLab
+  simp only [real_pmax, real_pmin, real_sci]
+  constructor
+  · exact le_trans (by norm_num) (le_max_left _ _)
+  · exact max_le (by norm_num) (le_trans (min_le_left _ _) (by norm_num))
+
+theorem rgb_lab_L_range (c : RGB) :
+    0 ≤ (@rgbToLab ℝ realNum c).1 ∧ (@rgbToLab ℝ realNum c).1 ≤ 100 :=
+  lab_L_range _
+
+/-! ## satisfiability of the hypothesis used above -/
+example : ∃ r : ℝ, |r| ≤ 2 := ⟨0, by norm_num⟩
+/-- `dE_rgb_nonneg` is not vacuous and not trivially `0`-only: `p ≠ q` is a satisfiable case of
+the non-early-return branch -/
+example : ((0, 0, 0) : RGB) ≠ (255, 255, 255) := by decide
+
 end CmProps.C11
